@@ -51,7 +51,8 @@ namespace
 {
 
 constexpr int kStallMs = 6000;   // no progress at all for this long = stall (cases take ~5-50 ms: >= 100x)
-constexpr int kCaseCapMs = 60000; // a case that is still moving after this long is abandoned as inconclusive
+constexpr int kDrainAfterCloseMs = 1500; // after onClose the peer reads on for at most this long (any prefix will do)
+constexpr int kCaseCapMs = 30000; // a case that is still moving after this long is abandoned as inconclusive
 constexpr int kQuietMs = 250;    // after this much silence the data oracle is evaluated early (a wrong byte needs no waiting)
 constexpr int kSetupMs = 10000;  // connection establishment bound (inconclusive beyond)
 constexpr std::size_t kMaxTotal = 1536 * 1024;
@@ -262,6 +263,10 @@ Plan drawPlan(pbt::Src &src, bool tls)
 
   std::size_t nThreads = wantI2P ? 1 + src.weighted({6, 2, 1, 1}) : 0;
   std::size_t total = 0;
+  // a receive buffer of a few KiB makes the loopback stack fall back to zero-window probing with
+  // 200 ms .. seconds of back-off once much data is queued: keep such plans small (they still give
+  // real partial writes and real EAGAIN at once), the large transfers use the larger buffers
+  const std::size_t totalCap = p.peerRcvBuf == 2048 ? 96 * 1024 : kMaxTotal;
   for (std::size_t t = 0; t < nThreads; ++t)
   {
     auto rows = src.rows(64 / nThreads, 4, 0, (1 << 20) - 1);
@@ -281,7 +286,7 @@ Plan drawPlan(pbt::Src &src, bool tls)
       case 6: o.len = static_cast<std::uint32_t>(big / 3 + v % (big - big / 3 + 1)); break;
       default: o.len = static_cast<std::uint32_t>(bigBase - 2 + v % 5); break; // around the socket buffer size
       }
-      if (total + o.len > kMaxTotal) o.len = 1 + v % 64;
+      if (total + o.len > totalCap) o.len = 1 + v % 64;
       total += o.len;
       static const std::uint32_t pz[] = {0, 0, 0, 0, 0, 20, 100, 500};
       o.pauseUs = pz[r[2] % 8];
@@ -301,7 +306,7 @@ Plan drawPlan(pbt::Src &src, bool tls)
   if (wantP2I)
   {
     auto rows = src.rows(24, 3, 0, 1 << 20);
-    std::size_t cap = p.readChunk == 1 ? 3000 : p.readChunk == 7 ? 20000 : 400 * 1024;
+    std::size_t cap = p.readChunk == 1 ? 3000 : p.readChunk == 7 ? 20000 : p.rcvBuf == 4096 ? 96 * 1024 : 400 * 1024;
     std::size_t tot = 0;
     for (auto &r : rows)
     {
@@ -1187,9 +1192,12 @@ void runPlan(const Plan &p, pbt::Case &c)
     auto lastProgress = waitStart;
     std::uint64_t lastTicks = ~0ULL, lastAct = ~0ULL;
     bool quietChecked = false;
+    bool closedSeen = false;
+    Clock::time_point closedAt{};
     std::unique_lock<std::mutex> lk(sh->mu);
     for (;;)
     {
+      const auto now0 = Clock::now();
       bool sendersFinished = sendersDone.load() == p.threads.size();
       std::size_t accTotal = 0;
       if (sendersFinished)
@@ -1202,7 +1210,16 @@ void runPlan(const Plan &p, pbt::Case &c)
       const bool wireEnded = peerEnded || peer.finSent.load();
       bool done = false;
       if (sh->closed)
-        done = sendersFinished && peerEnded; // reported closed: the peer still drains what the kernel holds
+      {
+        // reported closed: the peer still drains what the kernel holds, but any prefix is as good
+        // as another for the oracle - do not wait long for a slow kernel (tiny buffers)
+        if (!closedSeen)
+        {
+          closedSeen = true;
+          closedAt = now0;
+        }
+        done = sendersFinished && (peerEnded || msSince(closedAt) > kDrainAfterCloseMs);
+      }
       else if (wireEnded)
         done = false; // the session ended on the wire: onClose has to follow
       else
